@@ -12,6 +12,8 @@ dict (declared order, reversed, rotated) x every applicable reader; at
 generated positions a malformed example (wrong shape of one attribute, or an
 array where bytes / str is declared) is offered first: the writer refuses it,
 the caller carries on, and everything read back still is what was written.
+One case in sixteen has an attribute whose single example exceeds 1 MiB (a
+generated 7-element pattern repeated): block sizes of codecs and readers.
 Oracle (round trip): expected = the logical array (C order) cast safely to the
 declared dtype, as little-endian bytes.  fb: returned dtype == declared and
 bytes equal; npz: returned array must be safely castable to the declared dtype
@@ -122,6 +124,13 @@ def st_attr(draw, fmt, i, n_examples):
                 "present": "c"}
     shape = draw(st.sampled_from(SHAPES))
     present = draw(st.sampled_from(PRESENT))
+    tile = 0
+    if i == 0 and draw(st.integers(0, 15)) == 0:
+        # one example is larger than 1 MiB (block sizes of codecs and
+        # readers): a generated 7-element pattern repeated
+        tile = 7
+        shape = [(1 << 20) // np.dtype(dtype).itemsize + 17]
+        present = draw(st.sampled_from(["c", "c", "be", "strided", "reuse"]))
     src_dtype = dtype
     if present in ("narrow", "narrow-first"):
         if dtype in NARROWER:
@@ -129,6 +138,8 @@ def st_attr(draw, fmt, i, n_examples):
         else:
             present = "c"
     size = int(np.prod(shape)) if shape else 1
+    if tile:
+        size = tile
     vals = draw(
         st.lists(st.lists(st_element(src_dtype), min_size=size,
                           max_size=size).map("".join),
@@ -149,7 +160,8 @@ def st_attr(draw, fmt, i, n_examples):
         "shape": shape,
         "values": vals,
         "present": present,
-        "src_dtype": src_dtype
+        "src_dtype": src_dtype,
+        "tile": tile,
     }
 
 
@@ -193,6 +205,9 @@ def logical(attr, k):
     if attr.get("present") == "narrow-first" and k > 0:
         src = np.dtype(dtype)
     raw = bytes.fromhex(attr["values"][k])
+    if attr.get("tile"):
+        need = int(np.prod(attr["shape"])) * src.itemsize
+        raw = (raw * (need // len(raw) + 1))[:need]
     arr = np.frombuffer(raw, dtype=src.newbyteorder("<")).reshape(
         tuple(attr["shape"])).astype(src)  # native, C order
     expected = arr.astype(np.dtype(dtype)).astype(
